@@ -308,4 +308,319 @@ example : expandedName exDoc [2] = some (['a'], ['u']) ∧ expandedName (renDoc 
     expandedName (renDoc exRho exDoc) [2, 1, 0] = some (['x'], ['u']) ∧ expandedName (renDoc exRho exDoc) [2, 2] = some (['b'], ['d']) ∧
     qnameOf (renDoc exRho exDoc) [2] = ['p', 'p', ':', 'a'] := by decide
 
+/-! ### the lift through the evaluator
+    Two documents that agree on what the evaluator can observe - keys and their order, the child / attribute /
+    namespace keys of every node, kinds, string-values, `xml:lang`, the expanded names of everything but namespace
+    nodes and the URI part of every expanded name - give the same value to every expression that does not ask for
+    a QName as written (`name()`), for the local part of a namespace node's name (`local-name()`, which IS the
+    prefix there) and does not put a name test on the namespace axis. -/
+
+structure Alike (d d' : XDoc) : Prop where
+  keys : allKeys d' = allKeys d
+  child : childKeys d' = childKeys d
+  attr : attrKeys d' = attrKeys d
+  nss : nsKeys d' = nsKeys d
+  kind : kindOf d' = kindOf d
+  sval : strVal d' = strVal d
+  lang : xmlLangOf d' = xmlLangOf d
+  dt : d'.hasDoctype = d.hasDoctype
+  nz : d'.negZeroQuirk = d.negZeroQuirk
+  name : ∀ k, kindOf d k ≠ .ns → expandedName d' k = expandedName d k
+  uri : ∀ k, (expandedName d' k).map (·.2) = (expandedName d k).map (·.2)
+
+theorem Alike.axis {d d' : XDoc} (h : Alike d d') : axisKeys d' = axisKeys d := by
+  funext a c
+  simp only [axisKeys, h.keys, h.child, h.attr, h.nss]
+
+theorem Alike.norm {d d' : XDoc} (h : Alike d d') : normalize d' = normalize d := by
+  funext ks; simp only [normalize, h.keys]
+
+theorem Alike.toStr {d d' : XDoc} (h : Alike d d') : toStr d' = toStr d := by
+  funext v; cases v <;> simp only [XPath.toStr, h.nz, h.sval]
+
+theorem Alike.toNum {d d' : XDoc} (h : Alike d d') : toNum d' = toNum d := by
+  funext v; cases v <;> simp only [XPath.toNum, h.toStr]
+
+theorem Alike.cmpScalar {d d' : XDoc} (h : Alike d d') : cmpScalar d' = cmpScalar d := by
+  funext op a b; simp only [XPath.cmpScalar, h.toStr, h.toNum]
+
+theorem Alike.compare {d d' : XDoc} (h : Alike d d') : compare d' = compare d := by
+  funext op a b; simp only [XPath.compare, h.cmpScalar, h.sval]
+
+theorem Alike.langF {d d' : XDoc} (h : Alike d d') : langF d' = langF d := by
+  funext c arg; simp only [XPath.langF, h.keys, h.lang]
+
+/-- is the test a name test with a local part (`l`, `p:l`)? -/
+def isNameTest : NodeTest → Bool
+  | .name _ => true
+  | _ => false
+
+theorem principal_ns (a : Axis) (h : a ≠ .namespace) : principal a ≠ .ns := by
+  cases a <;> simp_all [principal]
+
+theorem Alike.nodeTest {env env' : XPath.Env} (h : Alike env.doc env'.doc) (hns : env'.ns = env.ns) (a : Axis) (t : NodeTest) (k : Key)
+    (hs : ¬ (a = .namespace ∧ isNameTest t = true)) : nodeTest env' a t k = nodeTest env a t k := by
+  have hb : ∀ p, bindingOf env' p = bindingOf env p := fun p => by simp only [bindingOf, hns]
+  cases t with
+  | node => rfl
+  | text => simp only [XPath.nodeTest, h.kind]
+  | comment => simp only [XPath.nodeTest, h.kind]
+  | any => simp only [XPath.nodeTest, h.kind]
+  | pi o =>
+    cases o with
+    | none => simp only [XPath.nodeTest, h.kind]
+    | some lit =>
+      simp only [XPath.nodeTest, h.kind]
+      by_cases hk : kindOf env.doc k = .pi
+      · rw [h.name k (by rw [hk]; decide)]
+      · have : (kindOf env.doc k == Kind.pi) = false := by simpa using hk
+        simp only [this, Bool.false_and]
+  | nsAny p => simp only [XPath.nodeTest, h.kind, hb, h.uri]
+  | name q =>
+    have ha : a ≠ .namespace := fun e => hs ⟨e, rfl⟩
+    by_cases hk : kindOf env.doc k = .ns
+    · have hne : kindOf env.doc k ≠ principal a := by rw [hk]; exact fun e => principal_ns a ha e.symm
+      have e1 : (kindOf env.doc k != principal a) = true := by simpa using hne
+      have e2 : (kindOf env.doc k == principal a) = false := by simpa using hne
+      cases hq : q.pre with
+      | some p => simp only [XPath.nodeTest, h.kind, hq, e1, if_true]
+      | none => simp only [XPath.nodeTest, h.kind, hq, e2, Bool.false_and]
+    · simp only [XPath.nodeTest, h.kind, hb, h.name k hk]
+
+/-- the functions that show a prefix: `name()` always, `local-name()` on a namespace node -/
+def showsPrefix (name : String) : Bool := name == "name" || name == "local-name"
+
+theorem Alike.applyFunc {env env' : XPath.Env} (h : Alike env.doc env'.doc) (c : Ctx) (name : String) (args : List Value)
+    (hs : showsPrefix name = false) : applyFunc env' c name args = applyFunc env c name args := by
+  have h1 : name ≠ "name" := fun e => by simp [showsPrefix, e] at hs
+  have h2 : name ≠ "local-name" := fun e => by simp [showsPrefix, e] at hs
+  unfold XPath.applyFunc
+  simp only [h.toStr, h.toNum, h.sval, h.langF, h.dt, h.uri]
+  split <;> first | rfl | exact absurd rfl h1 | exact absurd rfl h2
+
+/-! which expressions cannot see a prefix of the document -/
+mutual
+def safeE : Expr → Bool
+  | .bin _ a b => safeE a && safeE b
+  | .neg e => safeE e
+  | .lit _ => true
+  | .num _ => true
+  | .var _ => true
+  | .call f args => !showsPrefix (String.ofList f.loc) && safeEs args
+  | .filter e ps => safeE e && safeEs ps
+  | .path (some e) _ steps => safeE e && safeSs steps
+  | .path none _ steps => safeSs steps
+def safeEs : List Expr → Bool
+  | [] => true
+  | e :: r => safeE e && safeEs r
+def safeS : Step → Bool
+  | .mk a t ps => !(a == .namespace && isNameTest t) && safeEs ps
+def safeSs : List Step → Bool
+  | [] => true
+  | s :: r => safeS s && safeSs r
+end
+
+theorem evalStepOn_congr {env env' : XPath.Env} (st : Step) (hst : ∀ k, evalStep env' st k = evalStep env st k) :
+    ∀ ks, evalStepOn env' st ks = evalStepOn env st ks
+  | [] => by simp only [evalStepOn]
+  | k :: r => by simp only [evalStepOn, hst k, evalStepOn_congr st hst r]
+
+theorem filterOne_congr {env env' : XPath.Env} (p : Expr) (hp : ∀ c, eval env' p c = eval env p c) :
+    ∀ ks i n, filterOne env' p ks i n = filterOne env p ks i n
+  | [], _, _ => by simp only [filterOne]
+  | k :: r, i, n => by simp only [filterOne, hp, filterOne_congr p hp r]
+
+theorem tests_congr {env env' : XPath.Env} (a : Axis) (t : NodeTest) (ht : ∀ x, nodeTest env' a t x = nodeTest env a t x) :
+    ∀ l, evalStep.tests env' a t l = evalStep.tests env a t l
+  | [] => by simp only [evalStep.tests]
+  | x :: r => by simp only [evalStep.tests, ht x, tests_congr a t ht r]
+
+set_option linter.unusedSectionVars false
+section
+variable {env env' : XPath.Env} (h : Alike env.doc env'.doc) (hns : env'.ns = env.ns)
+include h hns
+
+mutual
+theorem eval_congr : ∀ (e : Expr) (c : Ctx), safeE e = true → eval env' e c = eval env e c
+  | .lit _, _, _ => by simp only [eval]
+  | .num _, _, _ => by simp only [eval]
+  | .var _, _, _ => by simp only [eval]
+  | .neg e, c, hs => by
+    simp only [safeE] at hs
+    simp only [eval, eval_congr e c hs, h.toNum]
+  | .bin op a b, c, hs => by
+    simp only [safeE, Bool.and_eq_true] at hs
+    cases op <;> simp only [eval, eval_congr a c hs.1, eval_congr b c hs.2, h.norm, h.toNum, h.compare]
+  | .call f args, c, hs => by
+    simp only [safeE, Bool.and_eq_true, Bool.not_eq_true'] at hs
+    have hb : ∀ p, bindingOf env' p = bindingOf env p := fun p => by simp only [bindingOf, hns]
+    simp only [eval, hb, evalArgs_congr args c hs.2, fun vs => h.applyFunc c (String.ofList f.loc) vs hs.1]
+  | .filter e ps, c, hs => by
+    simp only [safeE, Bool.and_eq_true] at hs
+    simp only [eval, eval_congr e c hs.1, fun rev ks => filterPreds_congr ps rev ks hs.2, h.norm]
+  | .path (some e) ab steps, c, hs => by
+    simp only [safeE, Bool.and_eq_true] at hs
+    simp only [eval, eval_congr e c hs.1, fun ks => evalSteps_congr steps ks hs.2, h.norm]
+  | .path none ab steps, c, hs => by
+    have hs' : safeSs steps = true := by rw [safeE] at hs; exact hs
+    simp only [eval, fun ks => evalSteps_congr steps ks hs', h.norm]
+theorem evalArgs_congr : ∀ (es : List Expr) (c : Ctx), safeEs es = true → evalArgs env' es c = evalArgs env es c
+  | [], _, _ => by simp only [evalArgs]
+  | e :: r, c, hs => by
+    simp only [safeEs, Bool.and_eq_true] at hs
+    simp only [evalArgs, eval_congr e c hs.1, evalArgs_congr r c hs.2]
+theorem evalSteps_congr : ∀ (steps : List Step) (ks : List Key), safeSs steps = true → evalSteps env' steps ks = evalSteps env steps ks
+  | [], _, _ => by simp only [evalSteps]
+  | st :: r, ks, hs => by
+    simp only [safeSs, Bool.and_eq_true] at hs
+    simp only [evalSteps, evalStepOn_congr st (fun k => evalStep_congr st k hs.1), fun ks => evalSteps_congr r ks hs.2, h.norm]
+theorem evalStep_congr : ∀ (st : Step) (k : Key), safeS st = true → evalStep env' st k = evalStep env st k
+  | .mk a t ps, k, hs => by
+    simp only [safeS, Bool.and_eq_true, Bool.not_eq_true', Bool.and_eq_false_iff, beq_eq_false_iff_ne] at hs
+    have hn : ¬ (a = .namespace ∧ isNameTest t = true) := by
+      rintro ⟨ha, ht⟩; rcases hs.1 with h1 | h1
+      · exact h1 ha
+      · rw [ht] at h1; cases h1
+    simp only [evalStep, h.axis, tests_congr a t (fun x => h.nodeTest hns a t x hn), fun rev ks => filterPreds_congr ps rev ks hs.2]
+theorem filterPreds_congr : ∀ (ps : List Expr) (rev : Bool) (ks : List Key), safeEs ps = true →
+    filterPreds env' ps rev ks = filterPreds env ps rev ks
+  | [], _, _, _ => by simp only [filterPreds]
+  | p :: r, rev, ks, hs => by
+    simp only [safeEs, Bool.and_eq_true] at hs
+    simp only [filterPreds, filterOne_congr p (fun c => eval_congr p c hs.1), fun rev ks => filterPreds_congr r rev ks hs.2]
+end
+end
+
+/-! ### a renamed document is alike -/
+theorem renNodes_length (ρ : Str → Str) (l : List XNode) : (renNodes ρ l).length = l.length := by
+  rw [renNodes_map, List.length_map]
+
+theorem childKeys_ren (ρ : Str → Str) (d : XDoc) : childKeys (renDoc ρ d) = childKeys d := by
+  funext k
+  unfold childKeys
+  rw [lookup_ren]
+  cases lookup d k with
+  | none => rfl
+  | some t =>
+    cases t with
+    | root => simp only [Option.map_some, renTarget, renDoc, renNodes_length]
+    | node n => simp only [Option.map_some, renTarget, renNode_kids, renNodes_length]
+    | attr o q v => rfl
+    | ns o p u => rfl
+
+theorem attrKeys_ren (ρ : Str → Str) (d : XDoc) : attrKeys (renDoc ρ d) = attrKeys d := by
+  funext k
+  unfold attrKeys
+  rw [lookup_ren]
+  cases lookup d k with
+  | none => rfl
+  | some t => cases t <;> simp only [Option.map_some, renTarget, renNode_attrs, List.length_map]
+
+theorem nsKeys_ren (ρ : Str → Str) (d : XDoc) : nsKeys (renDoc ρ d) = nsKeys d := by
+  funext k
+  unfold nsKeys
+  rw [lookup_ren]
+  cases lookup d k with
+  | none => rfl
+  | some t => cases t <;> simp only [Option.map_some, renTarget, renNode_nss, List.length_map]
+
+def xmlP : Str := ['x', 'm', 'l']
+
+theorem findLang_ren {ρ : Str → Str} (h : Consistent ρ) (hx : ρ xmlP = xmlP) : ∀ as : List (QN × Str),
+    ((as.map (renAt ρ)).find? fun (q, _) => q.pre == some "xml".toList && q.loc == "lang".toList).map (·.2) =
+    (as.find? fun (q, _) => q.pre == some "xml".toList && q.loc == "lang".toList).map (·.2)
+  | [] => rfl
+  | a :: r => by
+    have hx' : ("xml".toList : Str) = xmlP := rfl
+    have hp : ((renQ ρ a.1).pre == some "xml".toList) = (a.1.pre == some "xml".toList) := by
+      rw [hx']
+      cases hq : a.1.pre with
+      | none => simp [renQ, hq]
+      | some p =>
+        simp only [renQ, hq, Option.map_some]
+        by_cases hpx : p = xmlP
+        · simp [hpx, hx]
+        · have : ρ p ≠ xmlP := fun e => hpx (h.inj _ _ (e.trans hx.symm))
+          have e1 : (ρ p == xmlP) = false := by simpa using this
+          have e2 : (p == xmlP) = false := by simpa using hpx
+          simp [e1, e2]
+    simp only [List.map_cons, List.find?_cons, renAt, hp]
+    have hl : (renQ ρ a.1).loc = a.1.loc := rfl
+    rw [hl]
+    cases (a.1.pre == some "xml".toList && a.1.loc == "lang".toList)
+    · exact findLang_ren h hx r
+    · rfl
+
+theorem xmlLangOf_ren {ρ : Str → Str} (h : Consistent ρ) (hx : ρ xmlP = xmlP) (d : XDoc) : xmlLangOf (renDoc ρ d) = xmlLangOf d := by
+  funext k
+  unfold xmlLangOf
+  rw [lookup_ren]
+  cases lookup d k with
+  | none => rfl
+  | some t =>
+    cases t with
+    | node n =>
+      cases n with
+      | elem q ns as ks => simp only [Option.map_some, renTarget, renNode]; exact findLang_ren h hx as
+      | _ => rfl
+    | _ => rfl
+
+theorem expandedUri_ren {ρ : Str → Str} (h : Consistent ρ) (d : XDoc) (k : Key) :
+    (expandedName (renDoc ρ d) k).map (·.2) = (expandedName d k).map (·.2) := by
+  by_cases hk : kindOf d k = .ns
+  · unfold expandedName
+    rw [lookup_ren]
+    unfold kindOf at hk
+    cases ht : lookup d k with
+    | none => rfl
+    | some t =>
+      rw [ht] at hk
+      cases t with
+      | ns o p u => rfl
+      | root => rfl
+      | attr o q v => cases hk
+      | node n => cases n <;> cases hk
+  · rw [expandedName_ren h d k hk]
+
+/-- a consistently renamed document is indistinguishable, in the sense of `Alike`, from the original -/
+theorem renDoc_alike {ρ : Str → Str} (h : Consistent ρ) (hx : ρ xmlP = xmlP) (d : XDoc) : Alike d (renDoc ρ d) where
+  keys := allKeys_ren ρ d
+  child := childKeys_ren ρ d
+  attr := attrKeys_ren ρ d
+  nss := nsKeys_ren ρ d
+  kind := by funext k; exact kindOf_ren ρ d k
+  sval := by funext k; exact strVal_ren ρ d k
+  lang := xmlLangOf_ren h hx d
+  dt := rfl
+  nz := rfl
+  name := fun k hk => expandedName_ren h d k hk
+  uri := expandedUri_ren h d
+
+/-- RESULTS DO NOT CHANGE WHEN PREFIXES ARE RENAMED CONSISTENTLY IN THE DOCUMENT: every expression that does not call
+    `name()` / `local-name()` and puts no name test on the namespace axis has the same value - the same node-set, string,
+    number or boolean, or the same error - on the renamed document, at every context, under the same bindings -/
+theorem eval_ren {ρ : Str → Str} (h : Consistent ρ) (hx : ρ xmlP = xmlP) (env : XPath.Env) (e : Expr) (c : Ctx)
+    (hs : safeE e = true) : eval { env with doc := renDoc ρ env.doc } e c = eval env e c :=
+  eval_congr (env := env) (env' := { env with doc := renDoc ρ env.doc }) (renDoc_alike h hx env.doc) rfl e c hs
+
+/-- ... and so does every query text that parses to such an expression -/
+theorem query_ren {ρ : Str → Str} (h : Consistent ρ) (hx : ρ xmlP = xmlP) (env : XPath.Env) (s : Str)
+    (hs : ∀ e, parseExpr s = .ok e → safeE e = true) : query { env with doc := renDoc ρ env.doc } s = query env s := by
+  unfold query
+  cases hp : parseExpr s with
+  | error x => cases x <;> rfl
+  | ok e => simp only [eval_ren h hx env e _ (hs e hp)]
+
+example : Consistent exRho ∧ exRho xmlP = xmlP := ⟨by
+  refine ⟨fun a b hab => ?_, by decide⟩
+  unfold exRho at hab
+  by_cases ha1 : a = ['p'] <;> by_cases ha2 : a = ['p', 'p'] <;> by_cases hb1 : b = ['p'] <;> by_cases hb2 : b = ['p', 'p'] <;>
+    simp only [ha1, ha2, hb1, hb2, if_true, if_false] at hab <;> first | (subst_vars; rfl) | (subst_vars; contradiction) | simp_all, by decide⟩
+
+/-- the premise is met by paths with predicates, functions and prefixed name tests; `name()` is rightly excluded: it shows
+    `pp:a` on the renamed example document (see above) -/
+example : safeE (.path none true [.mk .descendantOrSelf .node [], .mk .child (.name ⟨some ['q'], ['a']⟩)
+    [.bin .eq (.path none false [.mk .attribute (.name ⟨some ['q'], ['x']⟩) []]) (.lit ['1'])]]) = true := by decide
+example : safeE (.path none false [.mk .namespace (.name ⟨none, ['p']⟩) []]) = false := by decide
+
 end XmlRs.C10
